@@ -25,7 +25,7 @@ warnings.filterwarnings('ignore')
 
 LEVEL = 'proof'
 IMPORTS = 'C12.Model C12.Check'
-PRELUDE = 'Local Open Scope nat_scope.\nLocal Open Scope string_scope.'
+PRELUDE = 'From Coq Require Import String.\nLocal Open Scope nat_scope.\nLocal Open Scope string_scope.'
 
 TAGS = {
     1: 'to_dict differs from model', 2: 'json.loads(json.dumps(d)) differs from normalise d',
@@ -38,13 +38,13 @@ TAGS = {
     15: 'key differs between interpreter processes', 16: 'generic model code does not parse back to an equal model',
     17: 'a symbolic leaf does not survive serialize/deserialize', 18: 'json text round trip is not idempotent',
     19: 'generic model file cannot be read back to an equal model',
-    20: 'to_dict() is not accepted by json.dumps',
+    20: 'to_dict() is not accepted by json.dumps', 21: 'different dataset but same key',
 }
 CORR = (1, 2, 3, 4, 5, 6, 7, 8, 9)
-ORACLE = (11, 12, 13, 14, 15, 16, 17, 18, 19, 20)
-F_DERIV, F_TUPLE, F_INTKEY, F_ORDER, F_GENFILE, F_MAPPING = (
+ORACLE = (11, 12, 13, 14, 15, 16, 17, 18, 19, 20, 21)
+F_DERIV, F_TUPLE, F_INTKEY, F_ORDER, F_GENFILE, F_MAPPING, F_SREPR = (
     'C12-DERIVATIVES-TEXT', 'C12-JSON-TUPLE', 'C12-JSON-INTKEY', 'C12-HASH-ORDER', 'C12-GENERIC-READ',
-    'C12-CATEGORIES-MAPPING')
+    'C12-CATEGORIES-MAPPING', 'C12-SREPR-DISTRIBUTES')
 
 
 # ------------------------------------------------------------------ implementation side helpers
@@ -169,6 +169,55 @@ def observe(kind, x, ctx=None, with_generic=False):
     info = {'kind': kind, 'leaves': nleaves, 'text_len': len(js), 'eq_back': eq_back, 'eq_json': eq_json,
             'dumps_ok': dumps_ok}
     return term, info
+
+
+def malform(rng, d):
+    """Delete or add one key somewhere in a (deep copy of a) dictionary; returns (dict, description)."""
+    import copy
+    d = copy.deepcopy(d)
+    nodes = []
+
+    def walk(v, path):
+        if isinstance(v, dict):
+            nodes.append((v, path))
+            for k, x in v.items():
+                walk(x, path + [k])
+        elif isinstance(v, (list, tuple)):
+            for i, x in enumerate(v):
+                walk(x, path + [i])
+    walk(d, [])
+    cands = [(n, p) for n, p in nodes if len(n) > 0]
+    node, path = rng.choice(cands)
+    if rng.random() < 0.75:
+        k = rng.choice(list(node.keys()))
+        del node[k]
+        return d, f'del {path + [k]}'
+    node['zzz'] = 1
+    return d, f'add {path}'
+
+
+def observe_malformed(kind, x, rng):
+    """from_dict on a dictionary with one key removed / added."""
+    d0 = x.to_dict()
+
+    def detuple(v):   # tuples cannot be edited in place
+        if isinstance(v, tuple):
+            return tuple(detuple(y) for y in v)
+        if isinstance(v, list):
+            return [detuple(y) for y in v]
+        if type(v) is dict:
+            return {k: detuple(y) for k, y in v.items()}
+        return v
+    d, what = malform(rng, detuple(d0))
+    fd = gen.from_dict_of(kind, x)
+    try:
+        back = fd(d)
+        err = None
+    except Exception as e:
+        back, err = None, type(e).__name__
+    cd = ex.canon_dict_lenient(kind, d)
+    term = f"(mkF {ex.obj(kind, x)}\n  {ex.pyv(cd)}\n  {'None' if back is None else '(Some ' + ex.obj(kind, back) + ')'})"
+    return term, {'kind': kind, 'what': what, 'error': err}
 
 
 def text_of(x):
@@ -442,6 +491,10 @@ def gen_component(rng):
     if k == 'rvs':
         return {'kind': k, 'items': [gen_dist(rng, i) for i in range(rng.choice([0, 1, 2, 3]))]}
     if k == 'assignment':
+        if rng.random() < 0.08:
+            # parsed by symengine directly: keeps number*(sum) undistributed, as pharmpy's own transformations do
+            return {'kind': k, 'symbol': 'Y', 'symengine': True,
+                    'expression': rng.choice(['(A+B)/2', '2*(CL+V)', '-(A+B)', 'exp(3*(A+B))', 'X*(A+B)', '(A+B)**2/2'])}
         return {'kind': k, 'symbol': rng.choice(['CL', 'V', 'Y', 'S1', 'F']), 'expression': rexpr(rng, rng.choice([1, 2, 3]))}
     if k == 'dose':
         return gen_dose(rng)
@@ -471,20 +524,23 @@ PHENO_ONLY = {'add_iov', 'add_covariate_effect', 'add_allometry', 'x_categories_
 GEN_OPS = [o for o in gen.OPS if o not in ('x_param_int', 'x_dataset_cell', 'x_move_path', 'set_name', 'set_description')]
 
 
-def gen_model_spec(rng, max_ops=3):
-    base = rng.choice(['pheno', 'pheno', 'pheno', 'moxo', 'pheno_linear'])
+def gen_model_spec(rng, max_ops=3, hashable=False):
+    # (the data file of the 'moxo' example is not shipped: that model cannot be given a key)
+    base = rng.choice(['pheno', 'pheno', 'pheno', 'pheno_linear'] + ([] if hashable else ['moxo']))
     ops = []
     for _ in range(rng.choice(list(range(0, max_ops + 1)))):
         name = rng.choice(GEN_OPS)
         if name in PHENO_ONLY and base != 'pheno':
             continue
+        if hashable and name == 'x_categories_dict':
+            continue
         ops.append([name, list(rng.choice(gen.OPS[name]))])
     return {'base': base, 'ops': ops}
 
 
-def valid_model_spec(rng, max_ops=3, tries=20):
+def valid_model_spec(rng, max_ops=3, tries=20, hashable=False):
     for _ in range(tries):
-        spec = gen_model_spec(rng, max_ops)
+        spec = gen_model_spec(rng, max_ops, hashable)
         try:
             gen.build_model(spec)
             return spec
@@ -495,31 +551,31 @@ def valid_model_spec(rng, max_ops=3, tries=20):
 
 def gen_model_pair(rng):
     """Two model specs whose relation is interesting for the key."""
-    a = valid_model_spec(rng, 2)
+    a = valid_model_spec(rng, 2, hashable=True)
     r = rng.random()
     b = {'base': a['base'], 'ops': [list(o) for o in a['ops']]}
     why = 'identical'
-    if r < 0.15:
+    if r < 0.1:
         pass
-    elif r < 0.3:
+    elif r < 0.25:
         b['ops'].append(rng.choice([['set_name', ['renamed']], ['set_description', ['some text']],
                                     ['x_move_path', ['/somewhere/else/data.csv']]]))
         why = 'renamed'
-    elif r < 0.5:
+    elif r < 0.45:
         b['ops'] += rng.choice([[['add_lag_time', []], ['remove_lag_time', []]],
                                 [['add_peripheral_compartment', []], ['remove_peripheral_compartment', []]],
                                 [['x_reverse_nodes', []]],
                                 [['set_zero_order_absorption', []], ['set_bolus_absorption', []]]])
         why = 'there-and-back'
-    elif r < 0.6:
+    elif r < 0.53:
         a['ops'].append(['x_depvars', [['Y', 'Z']]])
         b['ops'].append(['x_depvars', [['Z', 'Y']]])
         why = 'depvar-order'
-    elif r < 0.75 and len(b['ops']) >= 2:
+    elif r < 0.65 and len(b['ops']) >= 2:
         i = rng.randrange(len(b['ops']) - 1)
         b['ops'][i], b['ops'][i + 1] = b['ops'][i + 1], b['ops'][i]
         why = 'swapped-ops'
-    elif r < 0.85:
+    elif r < 0.75:
         b['ops'].append(rng.choice([['x_dataset_cell', [0, 'DV', 1.0]], ['x_dataset_cell', [3, 'TIME', 0.25]]]))
         why = 'dataset-cell'
     else:
@@ -596,11 +652,23 @@ def classify(ctx, spec, tags, pair=False):
             ok = known(F_INTKEY) or ok
         return ok
 
+    engine_failed = 17 in tags
+    if engine_failed and ctx.open_finding(F_SREPR):
+        # the engine hypothesis of every round-trip theorem (deserialize(serialize(e)) == e) fails on a leaf of this
+        # object: its == answers are outside what the model (which identifies an expression with its srepr) can
+        # predict; dictionaries and from_dict results (tags 1-4) are still compared
+        corr = [t for t in corr if t not in (5, 6)]
     for t in oracle:
         fine = False
-        if 205 in tags and t in (11, 12, 16):
+        if engine_failed and t in (11, 12, 16, 17):
+            fine = known(F_SREPR)
+        elif 205 in tags and t in (11, 12, 16):
             # NaN bound: outside the property's domain (x != x already); counted, not judged
             ctx.coverage['nan_cases'] = ctx.coverage.get('nan_cases', 0) + 1
+            fine = True
+        elif 208 in tags and t in (11, 12) and not (tags & {5, 6}):
+            # `==` itself raises on this object (a system without a dosing compartment), as the model predicts
+            ctx.coverage['eq_raises_cases'] = ctx.coverage.get('eq_raises_cases', 0) + 1
             fine = True
         elif t == 11:
             fine = 201 in tags and not (tags & {1, 3, 5}) and known(F_DERIV)
@@ -626,6 +694,22 @@ def classify(ctx, spec, tags, pair=False):
 
 
 # ------------------------------------------------------------------ running
+def sized_run(ctx, label, case_type, terms, verdict):
+    """ctx.run_cases with shards of bounded text size (coqc's time grows faster than linearly with the file)."""
+    out = [None] * len(terms)
+    classes = [(2000, 120), (8000, 30), (40000, 6), (10 ** 9, 2)]
+    lo = 0
+    for k, (hi, shard) in enumerate(classes):
+        idx = [i for i, t in enumerate(terms) if lo <= len(t) < hi]
+        lo = hi
+        if idx:
+            res = ctx.run_cases(f'{label}-s{k}', IMPORTS, case_type, [terms[i] for i in idx], verdict, shard=shard,
+                                prelude=PRELUDE)
+            for i, v in zip(idx, res):
+                out[i] = v
+    return out
+
+
 def run_single(ctx, specs, label, quiet=False, generic_every=1):
     terms, kept, infos = [], [], []
     skipped = {}
@@ -633,6 +717,11 @@ def run_single(ctx, specs, label, quiet=False, generic_every=1):
     for spec in specs:
         try:
             kind, x = build_case_object(spec)
+        except Exception as e:   # the generator asked for something the constructors refuse: not a case
+            key = 'unbuildable: ' + type(e).__name__
+            skipped[key] = skipped.get(key, 0) + 1
+            continue
+        try:
             wg = False
             if kind == 'model':
                 wg = nmodel % generic_every == 0
@@ -648,7 +737,25 @@ def run_single(ctx, specs, label, quiet=False, generic_every=1):
         sk = ctx.coverage.setdefault('skipped_unconvertible', {})
         for k, v in skipped.items():
             sk[k] = sk.get(k, 0) + v
-    verdicts = ctx.run_cases(label, IMPORTS, 'case', terms, 'verdict', shard=40, prelude=PRELUDE) if terms else []
+    if not quiet:
+        ctx.log(f'{len(terms)} cases observed on the implementation ({sum(len(t) for t in terms) // 1000} kB of terms)')
+    verdicts = sized_run(ctx, label, 'case', terms, 'verdict')
+    return kept, verdicts, infos
+
+
+def run_malformed(ctx, specs, label):
+    terms, kept, infos = [], [], []
+    for spec in specs:
+        rng = __import__('random').Random(json.dumps(spec, sort_keys=True) + str(ctx.seed))
+        try:
+            kind, x = build_case_object(spec['of'])
+            term, info = observe_malformed(kind, x, rng)
+        except (ex.Unconvertible, TypeError):
+            continue
+        terms.append(term)
+        kept.append(spec)
+        infos.append(info)
+    verdicts = sized_run(ctx, label, 'fcase', terms, 'fverdict') if terms else []
     return kept, verdicts, infos
 
 
@@ -659,7 +766,7 @@ def run_pairs(ctx, items, label):
         term, info = observe_pair(kind, a, b, keys)
         terms.append(term)
         infos.append(info)
-    verdicts = ctx.run_cases(label, IMPORTS, 'pcase', terms, 'pverdict', shard=12, prelude=PRELUDE) if terms else []
+    verdicts = sized_run(ctx, label, 'pcase', terms, 'pverdict') if terms else []
     return verdicts, infos
 
 
@@ -729,7 +836,9 @@ def run(ctx):
     if not ok:
         return
     quick = ctx.tier == 'quick'
+    ctx.log('build gate done')
     finding_probes(ctx)
+    ctx.log('finding probes done')
 
     # ---- regression corpus
     reg_single, reg_pairs = [], []
@@ -739,8 +848,8 @@ def run(ctx):
 
     # ---- single objects
     rng = ctx.rng
-    ncomp = 260 if quick else 5000
-    nmodels = 14 if quick else 160
+    ncomp = 230 if quick else 3500
+    nmodels = 14 if quick else 120
     specs = list(reg_single)
     specs += [gen_component(rng) for _ in range(ncomp)]
     specs += [gen_parameter(rng, nan_ok=True) for _ in range(3)]
@@ -754,20 +863,34 @@ def run(ctx):
         m = gen.build_model(ms)
         sels = [s for s, _, _ in parts_of(m)]
         rng.shuffle(sels)
-        for s in sels[: (10 if quick else 30)]:
+        for s in sels[: (9 if quick else 20)]:
             specs.append({'model': ms, 'part': s})
             nparts += 1
+    ctx.log(f'{len(specs)} single-object specs generated')
     kept, verdicts, infos = run_single(ctx, specs, 'obj', generic_every=(2 if quick else 4))
+    ctx.log(f'{len(verdicts)} single-object cases judged')
     stats = {'ok': 0, 'known': 0, 'violation': 0, 'broken': 0}
     for spec, tags in zip(kept, verdicts):
         stats[classify(ctx, spec, tags)] += 1
+
+    # ---- malformed stream: from_dict on dictionaries with a key deleted / added
+    # (single distributions / doses / steps are read back by their container's from_dict, which dispatches on
+    #  'class': they are reached through rvs / compartment / steps objects here)
+    mal_specs = [{'malformed': True, 'of': sp} for sp in kept
+                 if 'model' not in sp and sp.get('kind') not in ('dist', 'dose', 'step')][: (120 if quick else 1000)]
+    mal_specs += [{'malformed': True, 'of': {'model': ms}} for ms in model_specs[: (3 if quick else 20)]]
+    mkept, mverdicts, minfos = run_malformed(ctx, mal_specs, 'malformed')
+    ctx.log(f'{len(mverdicts)} malformed dictionaries judged')
+    mstats = {'ok': 0, 'known': 0, 'violation': 0, 'broken': 0}
+    for spec, tags in zip(mkept, mverdicts):
+        mstats[classify(ctx, spec, tags)] += 1
 
     # ---- pairs: synthetic systems entered in two orders
     pair_items = []
     for w in reg_pairs:
         if 'base' not in w['a']:
             pair_items.append((w, w['a']['kind'], gen.build_component(w['a']), gen.build_component(w['b']), None))
-    npairs = 60 if quick else 1200
+    npairs = 60 if quick else 1000
     made = 0
     while made < npairs:
         a = gen_csys(rng)
@@ -791,21 +914,24 @@ def run(ctx):
         pair_items.append(({'a': a, 'b': b}, 'csys', oa, ob, None))
         made += 1
     # ---- pairs of models with keys from fresh interpreters
-    nmp = 16 if quick else 150
+    nmp = 26 if quick else 150
     mpairs = [w for w in reg_pairs if 'base' in w['a']]
     while len(mpairs) < nmp + len([w for w in reg_pairs if 'base' in w['a']]):
         p = gen_model_pair(rng)
         if p is not None:
             mpairs.append(p)
     seeds = [1, 4242] if quick else [1, 4242, 7, 'random']
+    ctx.log(f'{len(pair_items)} system pairs, {len(mpairs)} model pairs generated')
     pair_items += model_pair_items(ctx, mpairs, seeds)
+    ctx.log('model keys computed in worker processes')
     pverdicts, pinfos = run_pairs(ctx, pair_items, 'pair')
+    ctx.log(f'{len(pverdicts)} pairs judged')
     pstats = {'ok': 0, 'known': 0, 'violation': 0, 'broken': 0}
     for (spec, kind, _, _, _), tags in zip(pair_items, pverdicts):
         pstats[classify(ctx, spec, tags, pair=True)] += 1
 
     # ---- evidence
-    ctx.coverage['evaluations'] = len(verdicts) + len(pverdicts)
+    ctx.coverage['evaluations'] = len(verdicts) + len(pverdicts) + len(mverdicts)
     distinct = {json.dumps(s, sort_keys=True) for s, i in zip(kept, infos) if i['text_len'] > 60}
     distinct |= {json.dumps(s, sort_keys=True, default=str) for (s, _, _, _, _) in pair_items}
     ctx.coverage['distinct_nontrivial'] = len(distinct)
@@ -814,7 +940,7 @@ def run(ctx):
                             'transformations from the example models and randomly chosen parts of them; pairs of systems / models '
                             'related by permutation, there-and-back transformations, renaming, content changes; non-trivial = '
                             'dictionary text longer than 60 characters; distinct by spec text')
-    ctx.coverage['case_status'] = {'single': stats, 'pairs': pstats}
+    ctx.coverage['case_status'] = {'single': stats, 'pairs': pstats, 'malformed': mstats}
     kinds = {}
     for i in infos:
         kinds[i['kind']] = kinds.get(i['kind'], 0) + 1
@@ -827,6 +953,7 @@ def run(ctx):
         'guard_tuple_false': sum(1 for v in verdicts if 202 in v),
         'guard_intkey_false': sum(1 for v in verdicts if 203 in v),
         'nan': sum(1 for v in verdicts if 205 in v),
+        'engine_contract_failed': sum(1 for v in verdicts if 17 in v),
         'graphs_not_output_first_or_illformed': sum(1 for v in verdicts if 206 in v),
         'pairs_by_kind': {k: sum(1 for i in pinfos if i['kind'] == k) for k in ('csys', 'model')},
         'pairs_equal': sum(1 for i in pinfos if i['eq'] is True), 'pairs_unequal': sum(1 for i in pinfos if i['eq'] is False),
@@ -834,6 +961,9 @@ def run(ctx):
         'pairs_equal_but_text_differs': sum(1 for v in pverdicts if 13 in v),
         'pairs_order_differs': sum(1 for v in pverdicts if 204 in v),
         'model_pair_relations': {w: sum(1 for p in mpairs if p.get('why') == w) for w in sorted({p.get('why', 'regress') for p in mpairs})},
+        'malformed_dicts': len(mverdicts), 'malformed_impl_raised': sum(1 for i in minfos if i['error']),
+        'malformed_impl_accepted': sum(1 for i in minfos if not i['error']),
+        'malformed_error_kinds': {k: sum(1 for i in minfos if i['error'] == k) for k in sorted({i['error'] for i in minfos if i['error']})},
         'processes_per_model_key': 1 + len(seeds), 'hashseeds': ['0 (check process)'] + [str(s) for s in seeds],
     }
     ctx.coverage['samples'] = ([{'spec': s, 'tags': v} for s, v in list(zip(kept, verdicts))[:3]]
@@ -842,6 +972,13 @@ def run(ctx):
 
 def replay(ctx, rep):
     spec = rep['spec']
+    if spec.get('malformed'):
+        _, verdicts, infos = run_malformed(ctx, [spec], 'replay')
+        print('info', infos[0] if infos else None)
+        tags = verdicts[0] if verdicts else []
+        print('spec', json.dumps(spec))
+        print('tags', tags, [TAGS.get(t, t) for t in tags])
+        return 1 if tags else 0
     if rep.get('pair') or 'a' in spec:
         if 'base' in spec['a']:
             items = model_pair_items(ctx, [spec], [1, 4242])
